@@ -71,31 +71,30 @@ Definition translate (m : list (str * str)) (sts : list (str * bool)) : list (st
 Definition rwtab := list (str * list str).
 Definition rw_of (rw : rwtab) (a : str) : list str :=
   match alookup str_eqb a rw with Some l => l | None => [a] end.
-Fixpoint zip_app {A : Type} (a b : list (list A)) : list (list A) :=
-  match a, b with
-  | x :: a', y :: b' => (x ++ y) :: zip_app a' b'
-  | [], _ => b
-  | _, [] => a
-  end.
-(* the entries recorded at each level (outermost first) and the addresses handed to the next
-   hop, for one client recipient *)
-Fixpoint add_levels (rws : list rwtab) (to : str) : list (list (str * str)) * list str :=
+(* what AddRcpt of one level records for one recipient: an entry for every address that differs
+   from the one it was given *)
+Definition entries_of (rw : rwtab) (to : str) : list (str * str) :=
+  flat_map (fun e => if str_eqb e to then [] else [(e, to)]) (rw_of rw to).
+Definition m1 (rw : rwtab) (rcpts : list str) : list (str * str) := flat_map (entries_of rw) rcpts.
+(* the record of each level, outermost first: a level sees the addresses the level above hands on *)
+Fixpoint pipe_maps (rws : list rwtab) (rcpts : list str) : list (list (str * str)) :=
   match rws with
-  | [] => ([], [to])
-  | rw :: rest =>
-      fold_left (fun acc e => let r := add_levels rest e in
-                              (zip_app (fst acc) ((if str_eqb e to then [] else [(e, to)]) :: fst r), snd acc ++ snd r))
-                (rw_of rw to) ([], [])
+  | [] => []
+  | rw :: rest => m1 rw rcpts :: pipe_maps rest (flat_map (rw_of rw) rcpts)
   end.
-Definition pipe_maps (rws : list rwtab) (rcpts : list str) : list (list (str * str)) :=
-  fold_left (fun acc r => zip_app acc (fst (add_levels rws r))) rcpts [].
-Definition pipe_handed (rws : list rwtab) (rcpts : list str) : list str := flat_map (fun r => snd (add_levels rws r)) rcpts.
+(* the addresses handed to the next hop, in order *)
+Fixpoint pipe_handed (rws : list rwtab) (rcpts : list str) : list str :=
+  match rws with
+  | [] => rcpts
+  | rw :: rest => pipe_handed rest (flat_map (rw_of rw) rcpts)
+  end.
 (* the innermost level translates first *)
 Definition translate_levels (maps : list (list (str * str))) (sts : list (str * bool)) : list (str * bool) :=
   fold_right translate sts maps.
 Definition pipe_e2e (rws : list rwtab) (rcpts fails : list str) : list (str * bool) :=
   translate_levels (pipe_maps rws rcpts)
                    (map (fun e => (e, negb (mem_b str_eqb e fails))) (pipe_handed rws rcpts)).
-(* what the property asks for: every result under the address the client supplied *)
+(* what the property asks for: every result under the address the client supplied, one per
+   address handed on for it *)
 Definition pipe_want (rws : list rwtab) (rcpts : list str) : list str :=
-  flat_map (fun r => map (fun _ => r) (snd (add_levels rws r))) rcpts.
+  flat_map (fun r => map (fun _ => r) (pipe_handed rws [r])) rcpts.
